@@ -55,7 +55,11 @@ func H_C15_Report(v *sym.V) {
 	b := g.BuildUpTo("e", v.Param("D", 2), leaves, gen.AllWrappers)
 	e := b.Err
 	tag := ""
-	switch v.Choice("stage", 6) {
+	switch v.Choice("stage", 7) {
+	case 6:
+		// the same error object below two branches of a multi-cause node
+		e = errors.Join(errors.Wrap(e, "a"), errors.WithHint(e, "b"))
+		tag = "/shared"
 	case 5:
 		// received from a peer whose types were migrated from another directory:
 		// the marks differ from the type names only in the leading path
